@@ -124,7 +124,7 @@ func (h *histProp) Plan(tier string, seed int64) []core.Segment {
 		} else {
 			if h.far {
 				segs = append(segs, core.Segment{Kind: "far:" + t, N: 240 * tierScale(tier, 10), Chunk: 8},
-					core.Segment{Kind: "farbig:" + t, N: 2 * tierScale(tier, 4), Chunk: 1})
+					core.Segment{Kind: "farbig:" + t, N: 6 * tierScale(tier, 4), Chunk: 1})
 			}
 			if h.midtext {
 				segs = append(segs, core.Segment{Kind: "midtext:" + t, N: 160 * tierScale(tier, 10), Chunk: 8},
@@ -344,6 +344,10 @@ func (h *histProp) Gen(kind string, idx int64, seed int64, tier string) core.Cas
 			c.WindowSize = 1 << 18
 			c.BufferSize = 1<<18 + r.Intn(1000)
 			c.BlockSize = 1<<15 + r.Intn(1<<15)
+			if idx%2 == 1 {
+				// blocks of 64-128 KiB (128 KiB is the default)
+				c.BlockSize = []int{1 << 17, 65537 + r.Intn(65535), 100000}[r.Intn(3)]
+			}
 			n = 300000
 		}
 		c.ShrinkSize = r.Intn(c.BufferSize)
@@ -885,7 +889,7 @@ func init() {
 			expected:    []string{"offset==WindowSize-1", "matchlen==MaxMatchLen"}},
 		types: gen.ParserTypes, quickN: 12000, thorMul: 40, corpusN: 300, large: true,
 		weights: HWeights{Write: 18, ReadFrom: 8, Parse: 30, ParseNTL: 10, ParseNil: 6, Shrink: 14, Reset: 1, ResetData: 2, WParse: 8, Faults: true},
-		scale:   []string{"manyseq", "longtail", "noiserun", "longmatch"},
+		scale:   []string{"manyseq", "longtail", "noiserun", "longmatch", "ntlburst", "hugeblock", "noisecopy"},
 		tweak: func(r *rand.Rand, pc *PCase, kind string) {
 			// windows smaller than the data so that the guard is under load
 			if r.Intn(2) == 0 {
@@ -1137,7 +1141,7 @@ func init() {
 		},
 		types: gen.ParserTypes, quickN: 12000, thorMul: 40, corpusN: 300, large: true,
 		weights: HWeights{Write: 18, ReadFrom: 8, Parse: 22, ParseNTL: 8, ParseNil: 22, Shrink: 12, Reset: 1, ResetData: 1, WParse: 10, Faults: true},
-		scale:   []string{"manyseq", "hugeshrink"},
+		scale:   []string{"manyseq", "hugeshrink", "hugeblock", "nilburst", "trickle"},
 		newObs: func(pc *PCase, ps *PState, c *core.Case, st *core.Stats) histObserver {
 			return &c14obs{cr: commonReach{st: st}, st: st}
 		},
